@@ -32,8 +32,8 @@ def run(chk):
     chk.proof_step(br)
     quick = chk.tier == "quick"
     base = lcompile.valid_corpus(chk.rng, 40 if quick else 400)
-    cases, step = lcompile.neighbours(chk.rng, base, chk.tier, 14000 if quick else 900000)
-    cases = CORPUS + base + cases + inputs.random_bytes(chk.rng, 1500 if quick else 60000)
+    cases, step = lcompile.neighbours(chk.rng, base, chk.tier, 14000 if quick else 300000)
+    cases = CORPUS + base + cases + inputs.random_bytes(chk.rng, 1500 if quick else 30000)
     for b in base[:: (3 if quick else 1)]:
         cases += inputs.random_mutations(b, chk.rng, 6 if quick else 60)
     chk.exhaustive = step == 1
@@ -42,18 +42,22 @@ def run(chk):
                 "size-scaling families; non-trivial = non-empty input; distinct by content" % (
                     "(step 1: exhaustive)" if step == 1 else "%d-th" % step, len(base)))
     if br.go_ok and br.coq_ok:
-        triples = lcompile.run_both(cases)
-        for c, ri, rm in triples:
-            chk.case(c.hex(), nontrivial=len(c) > 0)
-            chk.count("impl:" + ri.cls + (":accepted" if ri.cls == "done" and ri.perr == "ok" else ""))
-            if ri.cls != "done":
-                chk.violation("oracle", "the compiler did not return: " + ri.raw[:200], input_hex=common.hx(c),
-                              input_text=c.decode("utf-8", "replace")[:600], outcome=ri.cls)
-            elif ri.cerr not in ("ok",) and not ri.cerr.startswith("err:"):
-                chk.violation("oracle", "code generation for the (partial) tree crashed", input_hex=common.hx(c))
-        chk.samples = [{"input": c.decode("utf-8", "replace")[:120], "outcome": ri.cls, "error": (compilecmp.perr_pos(ri.perr) or ["none"])[0]}
-                       for c, ri, rm in triples[7:12]]
-        lcompile.correspondence(chk, triples, ("cls",))
+        first = None
+        for triples in lcompile.run_both_chunks(cases):
+            for c, ri, rm in triples:
+                chk.case(c.hex(), nontrivial=len(c) > 0)
+                chk.count("impl:" + ri.cls + (":accepted" if ri.cls == "done" and ri.perr == "ok" else ""))
+                if ri.cls != "done":
+                    chk.violation("oracle", "the compiler did not return: " + ri.raw[:200], input_hex=common.hx(c),
+                                  input_text=c.decode("utf-8", "replace")[:600], outcome=ri.cls)
+                elif ri.cerr not in ("ok",) and not ri.cerr.startswith("err:"):
+                    chk.violation("oracle", "code generation for the (partial) tree crashed", input_hex=common.hx(c))
+            if first is None:
+                first = [{"input": c.decode("utf-8", "replace")[:120], "outcome": ri.cls, "error": (compilecmp.perr_pos(ri.perr) or ["none"])[0]}
+                         for c, ri, rm in triples[7:12]]
+            lcompile.correspondence(chk, triples, ("cls",))
+            del triples
+        chk.samples = first or []
         # scaling families (implementation only; timing is supporting evidence, the hard oracle is the watchdog)
         sizes = [200, 400, 800] if quick else [500, 1000, 2000, 4000]
         timing = {}
